@@ -205,3 +205,127 @@ Proof.
     try (intros _; right; apply N.eqb_eq in E; rewrite (bfind_id _ _ _ F) in E; symmetry; exact E);
     try (intros _; right; apply HM; reflexivity).
 Qed.
+
+(** ** walks *)
+Lemma md_uw : forall fuel s cur to pred s' w,
+    unapplyWhile pstate ccmd cunexec fuel s cur to pred = Ok (s', w) -> md nobody s s'.
+Proof.
+  intros fuel s cur to pred s' w H.
+  apply (Inv_unapplyWhile pstate ccmd cunexec (fun x => md nobody s x)
+           (fun x i x' Hx Hu => md_trans _ _ _ _ Hx (md_unapply _ _ _ Hu)) fuel s cur to pred s' w (md_refl _ _) H).
+Qed.
+Lemma md_unapply_range : forall s a b s', unapply pstate ccmd cunexec s a b = Ok s' -> md nobody s s'.
+Proof.
+  intros s a b s' H.
+  apply (Inv_unapply_range pstate ccmd cunexec (fun x => md nobody s x)
+           (fun x i x' Hx Hu => md_trans _ _ _ _ Hx (md_unapply _ _ _ Hu)) s a b s' (md_refl _ _) H).
+Qed.
+
+Lemma md_apply_path : forall path s from s' ok,
+    winv s -> apply_path pstate ccmd cexec cunexec s from path = Ok (s', ok) -> md (fun j => In j path) s s'.
+Proof.
+  induction path as [|x r IH]; intros s from s' ok WI H; cbn in H.
+  - inversion H; subst. apply md_refl.
+  - dbind H. destruct a as [s1 ok1]. destruct ok1.
+    + eapply md_trans.
+      * eapply md_weaken; [|exact (proj1 (md_apply_ok _ _ _ E))]. intros j <-. left. reflexivity.
+      * eapply md_weaken; [|eapply IH; [eapply winv_apply; eassumption|exact H]]. intros j Hj. right. exact Hj.
+    + destruct (bfind (blocks pstate ccmd s1) x); [|discriminate]. dbind H. inversion H; subst.
+      eapply md_trans.
+      * eapply md_weaken; [|exact (md_apply_fail _ _ _ (proj1 WI) E)]. intros j <-. left. reflexivity.
+      * eapply md_weaken; [|exact (md_unapply_range _ _ _ _ E0)]. intros j [].
+Qed.
+
+Lemma md_apply_path_full : forall path s from s',
+    apply_path pstate ccmd cexec cunexec s from path = Ok (s', true) ->
+    (forall x, In x path -> lvl_ge L_FULL x s) -> md nobody s s'.
+Proof.
+  induction path as [|x r IH]; intros s from s' H Hl; cbn in H.
+  - inversion H; subst. apply md_refl.
+  - dbind H. destruct a as [s1 ok1]. destruct ok1.
+    + eapply md_trans; [exact (proj2 (md_apply_ok _ _ _ E) (Hl x (or_introl eq_refl)))|].
+      eapply IH; [exact H|]. intros y Hy. eapply lvl_ge_apply; [apply Hl; right; exact Hy|exact E].
+    + destruct (bfind (blocks pstate ccmd s1) x); [|discriminate]. dbind H. discriminate.
+Qed.
+
+Definition branch (s : cst) (t : N) : N -> Prop := fun j => exists k, j = up (cores s) k t.
+
+Lemma path_up_in : forall s n c upl,
+    path_up ccmd (blocks _ _ s) n c = Some upl -> forall x, In x upl -> branch s c x.
+Proof.
+  intros s n. induction n as [|n IH]; intros c upl H x Hx; cbn in H.
+  - inversion H; subst. destruct Hx.
+  - destruct (bfind (blocks pstate ccmd s) c) as [b|] eqn:Fc; [|discriminate].
+    destruct (path_up ccmd (blocks pstate ccmd s) n (b_par ccmd b)) as [upl'|] eqn:E; cbn in H; [|discriminate].
+    inversion H; subst. destruct Hx as [<-|Hx]; [exists O; reflexivity|].
+    destruct (IH _ _ E _ Hx) as (k & ->). exists (S k). cbn.
+    assert (Hp : parent (cores s) c = b_par ccmd b) by (unfold parent; rewrite (find_cfind _ _ _ Fc); reflexivity).
+    rewrite Hp. reflexivity.
+Qed.
+
+Lemma md_apply_range : forall s a b s' ok,
+    winv s -> apply pstate ccmd cexec cunexec s a b = Ok (s', ok) ->
+    md (branch s b) s s' /\ (ok = true -> (forall k, lvl_ge L_FULL (up (cores s) k b) s) -> md nobody s s').
+Proof.
+  intros s a b s' ok WI H. unfold apply in H.
+  destruct (N.eqb a b); [inversion H; subst; split; [apply md_refl|intros; apply md_refl]|].
+  destruct (bfind (blocks pstate ccmd s) a) as [bf|]; [|discriminate].
+  destruct (bfind (blocks pstate ccmd s) b) as [bt|]; [|discriminate].
+  destruct (is_failed ccmd bt); [inversion H; subst; split; [apply md_refl|intros; apply md_refl]|].
+  destruct (negb (Z.ltb (b_h ccmd bf) (b_h ccmd bt))); [discriminate|].
+  destruct (path_up ccmd (blocks pstate ccmd s) _ b) as [upl|] eqn:Eup; [|discriminate].
+  destruct (rev upl) as [|x r] eqn:Erev; [discriminate|].
+  destruct (bfind (blocks pstate ccmd s) x) as [bx|]; [|discriminate].
+  destruct (N.eqb (b_par ccmd bx) a); [|discriminate].
+  assert (Hin : forall y, In y (x :: r) -> branch s b y).
+  { intros y Hy. rewrite <- Erev in Hy. apply in_rev in Hy. eapply path_up_in; eassumption. }
+  split.
+  - eapply md_weaken; [|eapply md_apply_path; eassumption]. exact Hin.
+  - intros -> Hl. eapply md_apply_path_full; [exact H|]. intros y Hy. destruct (Hin y Hy) as (k & ->). apply Hl.
+Qed.
+
+Lemma branch_static : forall s s' t j, same_static (cores s) (cores s') -> branch s' t j -> branch s t j.
+Proof. intros s s' t j S (k & ->). exists k. apply up_static. exact S. Qed.
+Lemma md_static : forall T s s', md T s s' -> same_static (cores s) (cores s').
+Proof. intros T s s' (HS & _). unfold cores. apply same_static_of_static. exact HS. Qed.
+
+(** ** PopStateMachine::setState, setState *)
+Lemma md_sm_setState : forall s a b s' ok,
+    winv s -> (forall k, lvl_ge L_FULL (up (cores s) k a) s) ->
+    sm_setState pstate ccmd cexec cunexec s a b = Ok (s', ok) -> md (branch s b) s s'.
+Proof.
+  intros s a b s' ok WI Hl H. unfold sm_setState in H.
+  destruct (N.eqb a b); [inversion H; subst; apply md_refl|].
+  destruct (lca ccmd (blocks pstate ccmd s) _ a b) as [fork|]; [|discriminate].
+  dbind H. rename a0 into s1. pose proof (md_unapply_range _ _ _ _ E) as M1.
+  pose proof (winv_unapply_range _ _ _ _ WI E) as WI1.
+  dbind H. destruct a0 as [s2 ok2]. destruct (md_apply_range _ _ _ _ _ WI1 E0) as [M2 _].
+  pose proof (md_static _ _ _ M1) as S1.
+  assert (M12 : md (branch s b) s s2).
+  { eapply md_trans; [eapply md_weaken; [|exact M1]; intros j []|].
+    eapply md_weaken; [|exact M2]. intros j Hj. eapply branch_static; eassumption. }
+  destruct ok2; [inversion H; subst; exact M12|].
+  dbind H. destruct a0 as [s3 ok3]. destruct ok3; inversion H; subst; clear H.
+  pose proof (winv_apply_range _ _ _ _ _ WI1 E0) as WI2.
+  destruct (md_apply_range _ _ _ _ _ WI2 E1) as [_ M3].
+  eapply md_trans; [exact M12|]. eapply md_weaken; [|apply M3; [reflexivity|]]; [intros j []|].
+  intros k. pose proof (md_static _ _ _ M12) as S2. rewrite (up_static _ _ k a S2).
+  eapply lvl_ge_apply_range; [|exact E0]. eapply lvl_ge_unapply_range; [|exact E]. apply Hl.
+Qed.
+
+Theorem md_setState : forall s to s' ok,
+    quiet s -> scoh s -> tf s -> c_setState s to = Ok (s', ok) -> md (branch s to) s s'.
+Proof.
+  intros s to s' ok Q C T H. pose proof Q as (W & _). unfold c_setState, setState in H.
+  destruct (bfind (blocks pstate ccmd s) (tip pstate ccmd s)) as [bt|]; [|discriminate].
+  destruct (bfind (blocks pstate ccmd s) to) as [b0|]; [|discriminate].
+  destruct (negb _); [discriminate|].
+  match type of H with bind ?e _ = _ => destruct e as [[s1 ok1]|] eqn:E end; cbn [bind] in H; [|discriminate].
+  assert (M1 : md (branch s to) s s1).
+  { destruct (N.eqb (tip pstate ccmd s) to); [inversion E; subst; apply md_refl|].
+    eapply md_sm_setState; [split; eassumption| |exact E]. apply chain_lvl; assumption. }
+  destruct (bfind (blocks pstate ccmd s1) to) as [bto|]; [|discriminate].
+  destruct ok1.
+  - destruct (valid_upto ccmd bto L_FULL); inversion H; subst. exact M1.
+  - destruct (negb (is_failed ccmd bto)); [discriminate|]. destruct (negb _); inversion H; subst. exact M1.
+Qed.
